@@ -83,45 +83,35 @@ theorem dirMean_eq_arg (xs ex : List ℝ) (h : xs.length ≠ 1) :
   · simp only [transc_atan2, transc_sin, transc_cos, lsum_eq_sum]
     rw [resultant_re_im]
 
-/-- the one-column shortcut: the column is returned as it is, whatever the weight -/
-theorem dirMean_single (x : ℝ) (ex : List ℝ) : dirMean [x] ex = x := rfl
+/-- the one-column branch: the column wrapped to `(−π, π]`, whatever the weight -/
+theorem dirMean_single (x : ℝ) (ex : List ℝ) : dirMean [x] ex = Complex.arg (Complex.exp (x * I)) := by
+  unfold dirMean
+  simp only [transc_atan2, transc_sin, transc_cos]
+  congr 1
+  apply Complex.ext
+  · simp [Complex.exp_ofReal_mul_I_re]
+  · simp [Complex.exp_ofReal_mul_I_im]
 
 theorem resultant_single (x e : ℝ) : resultant [x] [e] = (e : ℂ) * Complex.exp (x * I) := by
   simp [resultant]
 
-theorem arg_resultant_single (x e : ℝ) (he : 0 < e) :
-    Complex.arg (resultant [x] [e]) = toIocMod Real.two_pi_pos (-Real.pi) x := by
-  rw [resultant_single, Complex.arg_real_mul _ he, Complex.arg_exp_mul_I]
-
-/-- … which is the argument of the resultant only up to a multiple of `2π` -/
-theorem dirMean_single_mod (x e : ℝ) (he : 0 < e) :
-    ∃ k : ℤ, dirMean [x] [e] = Complex.arg (resultant [x] [e]) + k * (2 * Real.pi) := by
-  refine ⟨toIocDiv Real.two_pi_pos (-Real.pi) x, ?_⟩
-  rw [dirMean_single, arg_resultant_single x e he]
-  have := toIocMod_add_toIocDiv_zsmul Real.two_pi_pos (-Real.pi) x
-  rw [zsmul_eq_mul] at this
-  exact this.symm
-
-/-- … and exactly the argument when the angle already lies in `(−π, π]` -/
-theorem dirMean_single_of_mem (x e : ℝ) (he : 0 < e) (hx : x ∈ Set.Ioc (-Real.pi) Real.pi) :
+/-- … which is the argument of the weighted resultant for every positive weight -/
+theorem dirMean_single_eq_arg (x e : ℝ) (he : 0 < e) :
     dirMean [x] [e] = Complex.arg (resultant [x] [e]) := by
-  rw [dirMean_single, arg_resultant_single x e he]
-  symm
-  rw [toIocMod_eq_self]
-  refine ⟨hx.1, ?_⟩
-  have : -Real.pi + 2 * Real.pi = Real.pi := by ring
-  rw [this]; exact hx.2
+  rw [dirMean_single, resultant_single, Complex.arg_real_mul _ he]
 
-/-- witness of the deviation: one particle at angle 7 with weight 1 -/
-theorem dirMean_single_counterexample :
-    dirMean [(7 : ℝ)] [1] = 7 ∧ dirMean [(7 : ℝ)] [1] ≠ Complex.arg (resultant [7] [1]) := by
-  refine ⟨rfl, ?_⟩
-  rw [dirMean_single]
-  intro h
-  have h1 := Complex.arg_le_pi (resultant [7] [1])
-  have h2 := Real.pi_le_four
-  rw [← h] at h1
-  linarith
+/-- circular rows for any number of columns, positive weights, one weight per column -/
+theorem dirMean_eq_arg_of_pos (xs ex : List ℝ) (hlen : xs.length = ex.length) (hpos : ∀ e ∈ ex, 0 < e) :
+    dirMean xs ex = Complex.arg (resultant xs ex) := by
+  by_cases h1 : xs.length = 1
+  · obtain ⟨x, rfl⟩ := List.length_eq_one_iff.mp h1
+    obtain ⟨e, rfl⟩ := List.length_eq_one_iff.mp (hlen ▸ h1 : ex.length = 1)
+    exact dirMean_single_eq_arg x e (hpos e (by simp))
+  · exact dirMean_eq_arg xs ex h1
+
+/-- the value lies in `(−π, π]` -/
+theorem arg_mem_Ioc (z : ℂ) : Complex.arg z ∈ Set.Ioc (-Real.pi) Real.pi :=
+  ⟨Complex.neg_pi_lt_arg z, Complex.arg_le_pi z⟩
 
 /-! ### mode -/
 
